@@ -394,6 +394,11 @@ def refine_ensemble(V, stats, h, ev, X, LX, X_after):
     bounded = h.cfg["bounds"] is not None
     for n_ev, (i, k) in enumerate(zip(owners, posts)):
         y, val = ev[k][2], ev[k][3]
+        if np.array_equal(y, X[i]):
+            # the partner coincides with the walker (possible for integer-valued starts): the "move" is the
+            # identity for every stretch factor, nothing to judge
+            stats["ensemble_identity_moves_skipped"] += 1
+            continue
         last_of_walker = n_ev == len(posts) - 1 or owners[n_ev + 1] != i
         acc = last_of_walker and np.array_equal(X_after[i], y) and not np.array_equal(X[i], y)
         if last_of_walker and not acc and not np.array_equal(X_after[i], X[i]):
